@@ -40,8 +40,8 @@ COMPONENTS = {
     "simulated": ["the data source and its chunking schedule"],
 }
 ASSUMPTIONS = [
-    "values are finite; widths positive; pretty binning only for data with two distinct values (preconditions of the statement)",
-    "grid rule tolerant to 8 ulp of the largest magnitude involved, so another float formula for the same grid is accepted",
+    "values are finite; widths positive; pretty binning only for data with two distinct values whose range is resolvable in floating point (>= 1e-9 of the magnitude) - preconditions of the statement",
+    "grid rule tolerant to max(8 ulp of the largest magnitude involved, 1e-9*width), so another float formula for the same grid is accepted",
     "growth bounded to 5000 bins (1-D) / 200 bins per axis (N-D) by the value pool",
 ]
 
@@ -170,14 +170,15 @@ def grid_problems(h, widths, e0_init):
         e0 = float(bins[0, 0])
         edges = np.concatenate([bins[:1, 0], bins[:, 1]])
         steps = np.arange(edges.shape[0]) * w
-        tol = 8 * np.maximum(np.maximum(np.spacing(np.abs(edges)), np.spacing(np.abs(steps))), ulp(e0))
+        tol = np.maximum(8 * np.maximum(np.maximum(np.spacing(np.abs(edges)), np.spacing(np.abs(steps))), ulp(e0)),
+                         1e-9 * w)  # physt adds a shift of unknown magnitude: allow its rounding
         off = np.abs(edges - (e0 + steps)) > tol
         if np.any(off):
             i = int(np.nonzero(off)[0][0])
             out.append(f"axis {ax}: edge {i} = {edges[i]!r} is off the grid {e0!r} + {i}*{w!r}")
         if e0_init[ax] is not None:
             k = round((e0_init[ax] - e0) / w)
-            tol0 = 8 * max(ulp(e0), ulp(k * w), ulp(e0_init[ax]))
+            tol0 = max(8 * max(ulp(e0), ulp(k * w), ulp(e0_init[ax])), 1e-9 * w)
             if abs(e0 + k * w - e0_init[ax]) > tol0:
                 out.append(f"axis {ax}: first edge {e0!r} left the original grid through {e0_init[ax]!r} (width {w!r})")
     return out
@@ -501,8 +502,14 @@ def execute_derived(plan, ctx):
     data = np.asarray([e[0] for e in entries], dtype=float).reshape(len(entries), ndim)
     if method == "pretty":
         for ax in range(ndim):
-            if len(set(data[:, ax].tolist())) < 2:
+            col = data[:, ax]
+            if len(set(col.tolist())) < 2:
                 return  # precondition of the statement
+            if (col.max() - col.min()) < 1e-9 * max(abs(col.max()), abs(col.min()), 1e-290):
+                # the width pretty_binning derives from such a range is below the float resolution at
+                # the data's magnitude (no representable grid exists): outside the statement's domain
+                ctx.probe("pretty_range_below_resolution_skipped")
+                return
     weights = None if cfg["weights"] == "none" else np.asarray([e[1] for e in entries])
     kw = {} if weights is None else {"weights": weights}
     if method == "fixed_width":
